@@ -24,7 +24,8 @@ import vlib, corelib
 
 PROP = "C12"
 INV = ["C12_AllCallsReturn", "C12_NoLeakAfterClose", "C12_SingleInstance", "C12_SourceNotPinned", "C12_NoLeakedLock",
-       "C01_RestoreEqualsSource", "C02_EveryTxidIsACommittedState", "C06_CompactedEqualsInputs", "C04_AckMeansReplicaAtLocalPos"]
+       "C01_RestoreEqualsSource", "C02_EveryTxidIsACommittedState", "C06_CompactedEqualsInputs", "C04_AckMeansReplicaAtLocalPos",
+       "N_ReadLockWhileOpen"]
 MODEL_OPS = {"syncdb": ["syncdb"], "syncdb2": ["syncwait"], "disable": ["disable"], "enable": ["enable"], "snap": ["snapshot"]}
 ALL_OPS = [["syncdb"], ["syncwait"], ["disable"], ["enable"], ["snapshot"], ["checkpoint", "PASSIVE"], ["checkpoint", "TRUNCATE"],
            ["compact", 1], ["replicasync"], ["status"], ["l0retention"], ["register"], ["unregister"], ["dbsync"], ["dbclose"],
@@ -61,12 +62,15 @@ def main():
             cases = [{"id": 0, "cfg": case["cfg"], "sched": case["sched"], "label": "replay"}]
         else:
             for cfgname, what in [("MC_Concurrency.cfg", "code as it is (a sync refuses to initialise a DB that is not open), processes {syncdb, syncdb2, disable, snap, enable}: LocksFree, NoDeadlock, NoLeakAfterClose"),
-                                  ("MC_Concurrency_pinned.cfg", "negative control: the pinned code (re-initialises a closed DB): NoLeakAfterClose holds only modulo the Z1 shape")]:
+                                  ("MC_Concurrency_pinned.cfg", "negative control: the pinned code (re-initialises a closed DB): NoLeakAfterClose holds only modulo the Z1 shape"),
+                                  ("MC_Concurrency_q1.cfg", "NEGATIVE CONTROL: read transaction bound to the context of the request that began it (Q1): ReadLockWhileOpen must fail")]:
                 r = vlib.run_tlc("Concurrency", cfgname, wd, workers=4, timeout=900)
                 vlib.tlc_expect_ok(r, cfgname)
                 rep.add_tlc(cfgname, r, what)
-                if r.violated:
+                if r.violated and not what.startswith("NEGATIVE CONTROL"):
                     rep.notes.append("design-level counterexample in Concurrency.tla (%s): %s" % (cfgname, r.violated))
+                if what.startswith("NEGATIVE CONTROL") and not r.violated:
+                    raise vlib.MachineryError("negative control %s found no counterexample" % cfgname)
             rep.cov["exhaustive"] = True
             rs, ss = vlib.tlc_simulate("Concurrency", "MC_Concurrency.cfg", wd, 60 if not thorough else 600, 40, seed)
             rep.cov["transitions"] += rs.generated
